@@ -63,7 +63,7 @@ def cond_of(T, absorbing):
 
 def run_case(ctx, kind, rng, idx):
     from vf.monitor import Frozen
-    T, tkind = mc.irreducible_chain(rng, periodic=0.12)
+    T, tkind = mc.irreducible_chain(rng, periodic=0.12, nmin=2)
     n = len(T)
     src, snk = gen_sets(rng, n)
     lag = [1.0, 2.5, 10.0, 0.5, 0.2, 3][int(rng.integers(0, 6))]
